@@ -753,6 +753,53 @@ fn main() {
     }
     let mut st = Stats::default();
     let mut found: BTreeMap<String, Replay> = BTreeMap::new();
+    // regression corpus (`corpus/<prop>/*.json`, replay-file format): packets and writer
+    // configurations that once exposed a defect of the pinned tree or a seeded change are
+    // executed again on every check — the recorded configuration first, then every writer
+    // configuration of the tier. Any finding of the property counts.
+    let mut corpus_replayed = 0u64;
+    {
+        let cdir = PathBuf::from(format!("{}/corpus/{}", verif_root(), prop));
+        let mut files: Vec<PathBuf> = match std::fs::read_dir(&cdir) {
+            Ok(rd) => rd.filter_map(|e| e.ok().map(|e| e.path())).filter(|p| p.extension().map_or(false, |x| x == "json")).collect(),
+            Err(_) => Vec::new(),
+        };
+        files.sort();
+        let mut scratch = Stats::default();
+        for (idx, path) in files.iter().enumerate() {
+            let rp: Replay = match std::fs::read_to_string(path).map_err(|e| e.to_string()).and_then(|s| serde_json::from_str(&s).map_err(|e| e.to_string())) {
+                Ok(r) => r,
+                Err(e) => {
+                    eprintln!("harness error: corpus file {} unreadable: {}", path.display(), e);
+                    std::process::exit(2);
+                }
+            };
+            corpus_replayed += 1;
+            bridge::STYLE.with(|s| s.set(rp.style));
+            let mut fds: Vec<(Finding, Mode, Option<WriterCfg>)> = check_one(&prop, &rp.spec, rp.opt.as_ref(), rp.mode, rp.writer.as_ref(), rp.style).into_iter().map(|f| (f, rp.mode, rp.writer.clone())).collect();
+            let mut r = Rng::new(mix(seed, mix(0xC0A9, idx as u64)));
+            bridge::STYLE.with(|s| s.set(rp.style));
+            fds.extend(run_case(&prop, &rp.spec, rp.opt.as_ref(), &mut r, &tier, &mut scratch).findings);
+            for (fd, mode, w) in fds {
+                if fd.prop != prop {
+                    continue;
+                }
+                found.entry(fd.sig.clone()).or_insert_with(|| Replay {
+                    property: prop.clone(),
+                    signature: fd.sig.clone(),
+                    detail: format!("{} [corpus entry {}]", fd.detail, path.file_name().unwrap().to_string_lossy()),
+                    verif_seed: seed,
+                    case_seed: u64::MAX - idx as u64,
+                    minimised: false,
+                    spec: rp.spec.clone(),
+                    opt: rp.opt.clone(),
+                    mode,
+                    writer: w,
+                    style: rp.style,
+                });
+            }
+        }
+    }
     for h in handles {
         let (s, fnd) = match h.join() {
             Ok(x) => x,
@@ -828,6 +875,7 @@ fn main() {
             "rule": rule,
             "samples": st.samples,
             "packets": st.cases,
+            "corpus_cases_replayed": corpus_replayed,
             "executions_against_real_serialisers": st.execs,
             "executions_per_hour": (st.execs as f64 / wall * 3600.0) as u64,
             "framing_walks": st.frame_checks,
